@@ -19,8 +19,23 @@ def stores(path, n_pre=0):
     out = {}
     for e in path.events[n_pre:]:
         if e.kind == 'write' and e.data.get('how') == 'attrstore' and e.depth == 0 and e.target == SELF:
-            out[e.data['attr']] = (e.data['value'], e)
+            # the backing attribute of a trivial setter (_value for value, _waveunit for waveunit) is the same store; the
+            # wavelength grid is different: only the `wave` setter validates it (C15-a decides that one)
+            name = e.data['attr']
+            if name in ('_value', '_waveunit', '_valueunit'):
+                name = name[1:]
+            out[name] = (e.data['value'], e)
     return out
+
+
+def _unit_of(v, want):
+    """the stored unit is `want`: the name itself (through the setter) or Unit(want)"""
+    if v == want:
+        return True
+    a = v.single_atom() if isinstance(v, Poly) else None
+    if a is not None and is_app(a, 'call:radiometry.Unit'):
+        return dict((k.items[0].value, k.items[1]) for k in a[2]).get('name') == want
+    return False
 
 
 def twin(v, mapping):
@@ -96,6 +111,7 @@ def run(chk, repo, tier):
     okb = okc = True
     detb = ''
     cmp_seen = set()
+    keep_seen = set()
     for p in [x for x in pp if x.status != 'raise']:
         # crop assigns twice (min side, max side): compare every wave store with the value store that follows it
         evs = [e for e in p.events if e.kind == 'write' and e.data.get('how') == 'attrstore' and e.target == SELF
@@ -109,24 +125,34 @@ def run(chk, repo, tier):
             wa = w.data['value'].single_atom() if isinstance(w.data['value'], Poly) else None
             va = v.data['value'].single_atom() if isinstance(v.data['value'], Poly) else None
             pure = wa is not None and va is not None and is_app(wa, 'delete') and is_app(va, 'delete') and wa[2][1] == va[2][1]
-            okb = okb and pure
+            kept = wa is not None and va is not None and wa[0] == 'idx' and va[0] == 'idx' and wa[2] == va[2] and \
+                not isinstance(wa[2], (Slice, Tup))
+            okb = okb and (pure or kept)
             # the deleted index set
             if pure:
                 for a in nf.value_atoms(wa[2][1]):
                     if is_app(a, ('lt', 'le')):
                         cmp_seen.add(a)
                 okc = okc and _selection_of_self(wa[2][0], 'wave') and _selection_of_self(va[2][0], 'value')
+            elif kept:
+                # the same written as a keep mask: x[wave >= min_wave], x[wave <= max_wave]
+                for a in nf.value_atoms(wa[2]):
+                    if is_app(a, ('lt', 'le')):
+                        keep_seen.add(a)
+                okc = okc and _selection_of_self(Poly.atom(wa[1]), 'wave') and _selection_of_self(Poly.atom(va[1]), 'value')
         if len(evs) % 2:
             okb, detb = False, 'odd number of wave/value stores on a path'
     chk.ob('C15-b', 'D-pairing', f.key, 'wave and value deleted with the same index set', okb and n_both > 0, detb, f.loc())
     chk.ob('C15-c', 'D-selection', f.key, 'retained samples are a pure selection of the original arrays', okc and n_both > 0, '', f.loc())
-    lo_ok = any(a[1] == 'lt' and _selection_of_self(a[2][0], 'wave') and a[2][1] == S('min_wave') for a in cmp_seen)
-    hi_ok = any(a[1] == 'lt' and a[2][0] == S('max_wave') and _selection_of_self(a[2][1], 'wave') for a in cmp_seen)
-    strict = all(a[1] == 'lt' for a in cmp_seen)
+    lo_ok = any(a[1] == 'lt' and _selection_of_self(a[2][0], 'wave') and a[2][1] == S('min_wave') for a in cmp_seen) or \
+        any(a[1] == 'le' and a[2][0] == S('min_wave') and _selection_of_self(a[2][1], 'wave') for a in keep_seen)
+    hi_ok = any(a[1] == 'lt' and a[2][0] == S('max_wave') and _selection_of_self(a[2][1], 'wave') for a in cmp_seen) or \
+        any(a[1] == 'le' and _selection_of_self(a[2][0], 'wave') and a[2][1] == S('max_wave') for a in keep_seen)
+    strict = all(a[1] == 'lt' for a in cmp_seen) and all(a[1] == 'le' for a in keep_seen)
     chk.ob('C15-d', 'T-comparison', f.key, 'deletes only w < min_wave (keeps w >= min_wave)', lo_ok and strict,
            '; '.join(sorted(nf.fmt_atom(a) for a in cmp_seen)), f.loc())
     chk.ob('C15-d', 'T-comparison', f.key, 'deletes only w > max_wave (keeps w <= max_wave)', hi_ok and strict,
-           '; '.join(sorted(nf.fmt_atom(a) for a in cmp_seen)), f.loc())
+           '; '.join(sorted(nf.fmt_atom(a) for a in cmp_seen | keep_seen)), f.loc())
 
     # trim
     f, pp = edit_paths('trim')
@@ -241,9 +267,9 @@ def run(chk, repo, tier):
     for p in [x for x in pp if x.status != 'raise']:
         st = stores(p)
         smp = p.calls(f'{SPEC}.sample')
-        okb = set(st) >= {'wave', 'value', 'waveunit'} and len(smp) == 1 and st['value'][0] == smp[0].result and \
+        okb = set(st) >= {'wave', 'value', 'waveunit'} and len(smp) == 1 and nf.strip_apps(st['value'][0], ('asarray', 'copy')) == smp[0].result and \
             st['wave'][0] == S('wave') and smp[0].bound.get('wave') == S('wave') and \
-            smp[0].bound.get('waveunit') == S('waveunit') and st['waveunit'][0] == S('waveunit')
+            smp[0].bound.get('waveunit') == S('waveunit') and _unit_of(st['waveunit'][0], S('waveunit'))
     chk.ob('C15-b', 'D-pairing', f.key, 'values sampled at exactly the new grid, in the new unit', okb, '', f.loc())
     # ... from the spectrum as it was: sample() converts the stored grid from the unit the spectrum is labelled with, so the
     # grid, the values and the label may only be replaced after the samples were taken
@@ -464,8 +490,14 @@ def bins_form(p, fb, J):
 
 def _selection_of_self(v, name):
     """self.<name> or a delete(...) selection of it (crop deletes on both sides)."""
-    while isinstance(v, Poly) and v.single_atom() is not None and is_app(v.single_atom(), 'delete'):
-        v = v.single_atom()[2][0]
+    for _ in range(6):
+        a = v.single_atom() if isinstance(v, Poly) else None
+        if a is not None and is_app(a, 'delete'):
+            v = a[2][0]
+        elif a is not None and a[0] == 'idx' and not _is_self_array(v, name):
+            v = Poly.atom(a[1])          # x[mask]: a selection of x (the min side kept first, then the max side)
+        else:
+            break
     return _is_self_array(v, name)
 
 
